@@ -181,6 +181,8 @@ def real_tokens(repo, sec, log):
     for r in rules:
         if r == "R0":
             ss = rtok.apply_cfg_rule(ss, log, label)
+        elif r == "R5":
+            ss = rtok.apply_mut_self(ss, log, label)
         else:
             ss, n = rtok.RULES[r].apply(ss, log, label)
     if "rename" in kv:
